@@ -8,12 +8,15 @@
 //
 // One source, six translation units (registry passes -DC09_PART=0..5 so they compile in parallel):
 //   PART 0  static_set<int,N,Comp>                     N in {1,3,4}, Comp = less<int> | greater<int>
-//   PART 1  static_set<int,N,less<>> (transparent, heterogeneous lookups with long), static_set<int,3,greater<>>
+//   PART 1  static_set<int,N,less<>> (transparent, heterogeneous lookups with long), static_set<int,3,greater<>>;
+//           fill-to-capacity scenarios at the size-type boundaries (255, 256, 257, 65536, 65537)
 //   PART 2  flat_set<int, static_vector<int,N>, Comp>  N in {1,3,4}, Comp = less<int> | greater<int>
-//   PART 3  flat_set<int, static_vector<int,N>, less<>>, flat_set<int, static_vector<int,3>, greater<>>
+//   PART 3  flat_set<int, static_vector<int,N>, less<>>, flat_set<int, static_vector<int,3>, greater<>>;
+//           bulk construction / insert(first,last) of 9..40 keys (capacity 40) under greater / greater<> / a user comparator
 //   PART 4  flat_set over an inplace_vector-backed adapter
 //   PART 5  flat_set with a *stateful* comparator (two directions, so that swap / copy / move must carry the
-//           comparator along); flat_multiset construction from every container of <= 4 keys
+//           comparator along); flat_multiset construction from every container of <= 4 keys and from containers of
+//           9..40 keys; static_set / flat_set over a struct key with a destructive move (see Rec)
 //
 // What is NOT part of the check on this tree (does not compile / declared but never defined / absent):
 //   static_set::equal_range (returns `iterator`, body returns a pair: hard error when instantiated), static_set insert
@@ -39,6 +42,7 @@
 #include <algorithm>
 #include <cstdarg>
 #include <iterator>
+#include <memory>
 #include <set>
 #include <vector>
 
@@ -68,6 +72,12 @@ template <>
 inline constexpr bool descending_v<etl::greater<int>> = true;
 template <>
 inline constexpr bool descending_v<etl::greater<>> = true;
+// a user-written (not etl::) descending comparator
+struct RevLess {
+    constexpr auto operator()(int a, int b) const -> bool { return b < a; }
+};
+template <>
+inline constexpr bool descending_v<RevLess> = true;
 
 // ------------------------------------------------------------------ inplace_vector-backed sequence container
 // etl::inplace_vector has no insert / erase / assignment; flat_set needs emplace(pos, x), erase, clear, the iterator
@@ -175,6 +185,14 @@ __attribute__((noinline, format(printf, 1, 2))) auto fmt(char const* f, ...) -> 
 }
 
 // length of an erase range, biased to "everything", "all but one" and to lengths >= 2
+auto splitmix64(std::uint64_t z) -> std::uint64_t
+{
+    z += 0x9E3779B97F4A7C15ULL;
+    z = (z ^ (z >> 30)) * 0xBF58476D1CE4E5B9ULL;
+    z = (z ^ (z >> 27)) * 0x94D049BB133111EBULL;
+    return z ^ (z >> 31);
+}
+
 auto pick(std::uint32_t raw, std::size_t room) -> std::size_t
 {
     switch (raw % 8) {
@@ -1325,12 +1343,222 @@ struct RecRunner {
     }
 };
 
+// ------------------------------------------------------------------ scenarios for large capacities and bulk construction
+// (a) FILL: capacities at the boundaries of the size type (255, 256, 257, 65535, 65536, 65537) are filled COMPLETELY
+//     (ascending / descending / shuffled insertion order), then: everything compared with std::set; a new key into the
+//     full static_set must fail; a duplicate must be found; one erase, one more insert, everything compared again.
+// (b) BULK (capacity 40): construction from a range of 9..40 keys with duplicates, a second insert(first,last), for
+//     flat_set also construction from a container, from (sorted_unique, container) and assignment, under every comparator.
+enum SCode : std::uint32_t { S_FILL, S_BULK, S_NCODES };
+char const* const scode_names[] = {"fill-to-capacity", "bulk-construct"};
+
+template <bool Flat, typename Set>
+auto big_compare(char const* name, Set& x, Model const& m, std::size_t cap, bool lookups) -> std::string
+{
+    Set const& cx = x;
+    if (cx.size() != m.size()) { return fmt("%s: size() is %zu, std::set has %zu", name, static_cast<std::size_t>(cx.size()), m.size()); }
+    if (cx.empty() != m.empty()) { return fmt("%s: empty() is %s with %zu elements", name, cx.empty() ? "true" : "false", m.size()); }
+    if (cx.max_size() != cap) { return fmt("%s: max_size() != N", name); }
+    if constexpr (!Flat) {
+        if (cx.full() != (m.size() == cap)) { return fmt("%s: full() is %s with %zu of %zu elements", name, cx.full() ? "true" : "false", m.size(), cap); }
+    }
+    if (static_cast<std::size_t>(cx.end() - cx.begin()) != m.size() || static_cast<std::size_t>(x.end() - x.begin()) != m.size()) { return fmt("%s: end()-begin() is %td, size %zu", name, cx.end() - cx.begin(), m.size()); }
+    std::vector<int> const seq(m.begin(), m.end());
+    for (std::size_t i = 0; i < seq.size(); ++i) {
+        if (cx.begin()[i] != seq[i]) { return fmt("%s: element %zu is %d, std::set has %d", name, i, cx.begin()[i], seq[i]); }
+    }
+    auto const kc = cx.key_comp();
+    for (std::size_t i = 0; i + 1 < seq.size(); ++i) {
+        if (!kc(cx.begin()[i], cx.begin()[i + 1])) { return fmt("%s: not strictly ascending under key_comp() at %zu", name, i); }
+    }
+    auto rlast = cx.rend();
+    if (!seq.empty()) { --rlast; }
+    if (!seq.empty() && (*cx.rbegin() != seq.back() || *rlast != seq.front())) { return fmt("%s: reverse iteration does not start at the last / end at the first element", name); }
+    if (!lookups || seq.empty()) { return ""; }
+    auto const mc  = m.key_comp();
+    int const lo   = *std::min_element(seq.begin(), seq.end()) - 1;
+    int const hi   = *std::max_element(seq.begin(), seq.end()) + 1;
+    long const n   = static_cast<long>(seq.size());
+    int const span = hi - lo;
+    for (int k = lo; k <= hi; ++k) {
+        if (span > 4000 && k - lo > 600 && hi - k > 600 && (k % 61) != 0) { continue; } // very large sets: both ends completely, every 61st key in between
+        long const wl = static_cast<long>(std::lower_bound(seq.begin(), seq.end(), k, mc) - seq.begin());
+        long const wu = static_cast<long>(std::upper_bound(seq.begin(), seq.end(), k, mc) - seq.begin());
+        long const wf = wl < wu ? wl : n;
+        long got[8]   = {off(x.begin(), x.end(), x.find(k)), off(cx.begin(), cx.end(), cx.find(k)), cx.contains(k) ? 1 : 0, static_cast<long>(cx.count(k)), off(x.begin(), x.end(), x.lower_bound(k)),
+              off(cx.begin(), cx.end(), cx.lower_bound(k)), off(x.begin(), x.end(), x.upper_bound(k)), off(cx.begin(), cx.end(), cx.upper_bound(k))};
+        long const want[8] = {wf, wf, wu - wl, wu - wl, wl, wl, wu, wu};
+        for (int f = 0; f < 8; ++f) {
+            if (got[f] != want[f]) { return fmt("%s: %s(%d) gives %s, std::set gives %ld (size %ld)", name, fn_names[f], k, show_off(got[f]).c_str(), want[f], n); }
+        }
+        if constexpr (Flat) {
+            auto r = cx.equal_range(k);
+            if (off(cx.begin(), cx.end(), r.first) != wl || off(cx.begin(), cx.end(), r.second) != wu) { return fmt("%s: equal_range(%d) differs from std::set's [%ld,%ld)", name, k, wl, wu); }
+        }
+    }
+    return "";
+}
+
+template <typename SetT, typename CompT, std::size_t N, bool Flat>
+struct ScenarioRunner {
+    using Set = SetT;
+    static auto model() -> Model { return Model(DirComp{descending_v<CompT>}); }
+
+    static auto fill(RawOp const& op) -> std::string
+    {
+        // N distinct odd keys, so that there are absent keys between any two of them
+        std::vector<int> ks(N);
+        for (std::size_t i = 0; i < N; ++i) { ks[i] = static_cast<int>(2 * i + 1); }
+        auto const order = N > 1000 ? 0U : op.a % 3U; // the very large sets are only filled in ascending order (every other order is quadratic)
+        if (order == 1) { std::reverse(ks.begin(), ks.end()); }
+        if (order == 2) {
+            vf::Rng rng(op.b + 1U);
+            for (std::size_t i = N; i > 1; --i) { std::swap(ks[i - 1], ks[rng.below(i)]); }
+        }
+        if (descending_v<CompT> && order == 0) { std::reverse(ks.begin(), ks.end()); } // "ascending" means: every insert goes to the end
+        auto px = std::make_unique<Set>();
+        Set& x  = *px;
+        Model m = model();
+        for (std::size_t i = 0; i < N; ++i) {
+            int const key = ks[i];
+            bool ins      = false;
+            long pos      = 0;
+            if (i % 3 == 0) {
+                auto r = x.insert(key);
+                ins    = r.second;
+                pos    = off(x.begin(), x.end(), r.first);
+            } else if (i % 3 == 1) {
+                int v  = key;
+                auto r = x.insert(std::move(v));
+                ins    = r.second;
+                pos    = off(x.begin(), x.end(), r.first);
+            } else {
+                auto r = x.emplace(key);
+                ins    = r.second;
+                pos    = off(x.begin(), x.end(), r.first);
+            }
+            m.insert(key);
+            if (!ins) { return fmt("insert number %zu (key %d) into a set of capacity %zu reported inserted=false", i + 1, key, N); }
+            if (x.size() != i + 1) { return fmt("after insert number %zu size() is %zu", i + 1, static_cast<std::size_t>(x.size())); }
+            if (pos < 0 || pos > static_cast<long>(i) || x.begin()[pos] != key) { return fmt("insert number %zu (key %d) returned an iterator that does not point at the key (offset %s)", i + 1, key, show_off(pos).c_str()); }
+        }
+        if (auto e = big_compare<Flat>("filled to capacity", x, m, N, true); !e.empty()) { return e; }
+        // duplicate into the full set: found, not inserted
+        {
+            int const dup = ks[op.b % N];
+            auto r        = x.insert(dup);
+            long const w  = static_cast<long>(std::distance(m.begin(), m.find(dup)));
+            if (r.second || off(x.begin(), x.end(), r.first) != w) { return fmt("insert of the stored key %d into the full set: inserted=%s, iterator offset %s, std::set {%ld,false}", dup, r.second ? "true" : "false", show_off(off(x.begin(), x.end(), r.first)).c_str(), w); }
+        }
+        if constexpr (!Flat) { // new keys into the full static_set: failure, nothing changes
+            for (int nk : {0, static_cast<int>(2 * N + 5), static_cast<int>(N) - (static_cast<int>(N) % 2)}) {
+                if (x.insert(nk).second) { return fmt("insert of the new key %d into the full set reported inserted=true", nk); }
+            }
+            if (auto e = big_compare<Flat>("full set after rejected inserts", x, m, N, false); !e.empty()) { return e; }
+        }
+        // one erase, one more insert
+        int const victim = ks[op.c % N];
+        if (auto n = x.erase(victim); n != 1) { return fmt("erase(key %d) on the full set returned %zu", victim, static_cast<std::size_t>(n)); }
+        m.erase(victim);
+        if (auto e = big_compare<Flat>("after one erase", x, m, N, false); !e.empty()) { return e; }
+        int const fresh = victim + 1; // an even key next to the erased one
+        if (!x.insert(fresh).second) { return fmt("insert of the new key %d after one erase reported inserted=false", fresh); }
+        m.insert(fresh);
+        if (auto e = big_compare<Flat>("after one erase and one more insert", x, m, N, true); !e.empty()) { return e; }
+        // erase through an iterator, refill, then empty it
+        x.erase(x.begin());
+        m.erase(m.begin());
+        x.emplace(static_cast<int>(2 * N + 7));
+        m.insert(static_cast<int>(2 * N + 7));
+        if (auto e = big_compare<Flat>("after erase(begin()) and emplace", x, m, N, false); !e.empty()) { return e; }
+        auto cp = std::make_unique<Set>(x);
+        if (auto e = big_compare<Flat>("copy of the full set", *cp, m, N, false); !e.empty()) { return e; }
+        x.clear();
+        m.clear();
+        return big_compare<Flat>("cleared", x, m, N, false);
+    }
+
+    static auto bulk(RawOp const& op, bool& had_dup) -> std::string
+    {
+        if constexpr (N <= 64) {
+            auto const keys = bulk_keys(op, N);
+            had_dup         = has_dups(keys);
+            int src[64]{};
+            std::copy(keys.begin(), keys.end(), src);
+            int const* f = src;
+            Model m      = model();
+            m.insert(keys.begin(), keys.end());
+            auto make = [&]() -> Set {
+                if constexpr (Flat) {
+                    return Set(f, f + keys.size());
+                } else {
+                    return Set(f, f + keys.size());
+                }
+            };
+            Set c = make();
+            if (auto e = big_compare<Flat>("constructed from a range", c, m, N, true); !e.empty()) { return e; }
+            // a second, overlapping range (cut so that the set never needs more than N keys), through input iterators for odd seeds
+            bool dup2        = false;
+            auto const keys2 = fit_keys(m, bulk_keys(RawOp{op.code, op.a + 7U, op.b + 1U, op.c}, N), false, N, dup2);
+            int src2[64]{};
+            std::copy(keys2.begin(), keys2.end(), src2);
+            int const* g = src2;
+            if ((op.b & 1U) != 0) {
+                using It = vf::it::In<int const>;
+                c.insert(It(g, g, g + keys2.size()), It(g + keys2.size(), g, g + keys2.size()));
+            } else {
+                c.insert(g, g + keys2.size());
+            }
+            m.insert(keys2.begin(), keys2.end());
+            if (auto e = big_compare<Flat>("after insert(first,last)", c, m, N, true); !e.empty()) { return e; }
+            if (vf::it::g_out_of_range) { return "an input iterator was advanced / dereferenced outside its range"; }
+            if constexpr (Flat) {
+                using Cont = typename Set::container_type;
+                Model m1   = model();
+                m1.insert(keys.begin(), keys.end());
+                Cont cont;
+                for (auto q : keys) { cont.push_back(q); }
+                Set d(cont);
+                if (auto e = big_compare<Flat>("constructed from a container", d, m1, N, true); !e.empty()) { return e; }
+                Set e2;
+                e2 = d;
+                if (auto e = big_compare<Flat>("copy-assigned", e2, m1, N, false); !e.empty()) { return e; }
+                Cont sorted;
+                for (auto q : m1) { sorted.push_back(q); }
+                Set s3(etl::sorted_unique, std::move(sorted));
+                if (auto e = big_compare<Flat>("constructed from (sorted_unique, container)", s3, m1, N, true); !e.empty()) { return e; }
+                e2 = std::move(s3);
+                if (auto e = big_compare<Flat>("move-assigned", e2, m1, N, false); !e.empty()) { return e; }
+            }
+        } else {
+            (void)op;
+            (void)had_dup;
+        }
+        return "";
+    }
+
+    static auto run(OpsCase const& k, int stats, std::size_t /*check_from*/) -> std::string
+    {
+        if (k.ops.empty()) { return ""; }
+        vf::it::g_out_of_range = false;
+        auto const& op         = k.ops[0];
+        auto code              = op.code % S_NCODES;
+        if (N > 64 && code == S_BULK) { code = S_FILL; }
+        bool had_dup = false;
+        auto err     = code == S_FILL ? fill(op) : bulk(op, had_dup);
+        if (stats > 0) {
+            if (code == S_FILL || had_dup) { vf::nontrivial_count(); }
+        }
+        return err.empty() ? err : std::string(scode_names[code]) + ": " + err;
+    }
+};
+
 // ------------------------------------------------------------------ configuration table
 struct Config {
     char const* name;
     std::string (*run)(OpsCase const&, int, std::size_t);
     std::uint32_t ncodes;
-    int kind; // 0 static_set, 1 flat_set, 2 flat_multiset, 3 static_set / flat_set with the struct key Rec
+    int kind; // 0 static_set, 1 flat_set, 2 flat_multiset, 3 static_set / flat_set with the struct key Rec, 4 scenarios (fill / bulk), 5 bulk flat_multiset
     std::size_t cap;
 };
 
@@ -1344,6 +1572,9 @@ using AVec = IVec<int, N>;
 #define FA(N, C) Config{"flat_set<int,inplace_vector_adapter<int," #N ">," #C ">", &Runner<etl::flat_set<int, AVec<N>, C>, C, N, true>::run, NCODES_FLAT, 1, N}
 #define RS(N) Config{"static_set<Rec," #N ",RecLess>", &RecRunner<etl::static_set<Rec, N, RecLess>, N, false>::run, R_NCODES_STATIC, 3, N}
 #define RF(N) Config{"flat_set<Rec,static_vector<Rec," #N ">,RecLess>", &RecRunner<etl::flat_set<Rec, etl::static_vector<Rec, N>, RecLess>, N, true>::run, R_NCODES_FLAT, 3, N}
+#define XS(N, C) Config{"static_set<int," #N "," #C "> (scenarios)", &ScenarioRunner<etl::static_set<int, N, C>, C, N, false>::run, S_NCODES, 4, N}
+#define XF(N, C) Config{"flat_set<int,static_vector<int," #N ">," #C "> (scenarios)", &ScenarioRunner<etl::flat_set<int, SVec<N>, C>, C, N, true>::run, S_NCODES, 4, N}
+#define MB(C) Config{"flat_multiset<int,static_vector<int,40>," #C "> (bulk)", &MultiRunner<SVec<40>, C, 40>::run, 1, 5, 40}
 #define MS(CONT, CNAME, C) Config{"flat_multiset<int," CNAME "," #C ">", &MultiRunner<CONT, C>::run, 1, 2, 4}
 
 using less_int     = etl::less<int>;
@@ -1356,10 +1587,14 @@ Config const configs[] = {
     SS(1, less_int), SS(3, less_int), SS(4, less_int), SS(1, greater_int), SS(3, greater_int), SS(4, greater_int),
 #elif C09_PART == 1
     SS(1, less_void), SS(3, less_void), SS(4, less_void), SS(3, greater_void),
+    // capacities at the boundaries of the size type, filled completely; bulk construction under every comparator
+    XS(255, less_int), XS(256, less_int), XS(257, greater_int), XF(256, greater_int), XS(65536, less_int), XS(65537, less_int), XF(65536, less_int),
 #elif C09_PART == 2
     FS(1, less_int), FS(3, less_int), FS(4, less_int), FS(1, greater_int), FS(3, greater_int), FS(4, greater_int),
 #elif C09_PART == 3
     FS(1, less_void), FS(3, less_void), FS(4, less_void), FS(3, greater_void),
+    // bulk construction / bulk insert of 9..40 keys under non-less orderings
+    XS(40, greater_int), XF(40, less_int), XF(40, greater_void), XF(40, RevLess),
 #elif C09_PART == 4
     FA(3, less_int), FA(4, greater_int), FA(3, less_void),
     // large capacities with a key universe of 20: random histories only (size-dependent search paths)
@@ -1368,6 +1603,7 @@ Config const configs[] = {
     FS(3, DirComp), FA(4, DirComp),
     MS(SVec<4>, "static_vector<int,4>", less_int), MS(SVec<4>, "static_vector<int,4>", greater_int), MS(SVec<4>, "static_vector<int,4>", less_void), MS(AVec<4>, "inplace_vector_adapter<int,4>", greater_void),
     RS(3), RS(5), RF(3), RF(5),
+    MB(less_int), MB(greater_int), MB(greater_void), MB(RevLess),
 #endif
 };
 constexpr std::uint32_t nconfigs = sizeof(configs) / sizeof(configs[0]);
@@ -1386,6 +1622,8 @@ auto describe(OpsCase const& k) -> std::string
     for (auto const& o : k.ops) {
         if (cfg.kind == 2) {
             s += " " + std::to_string(o.a % 6U);
+        } else if (cfg.kind == 4 || cfg.kind == 5) {
+            s += " " + std::string(cfg.kind == 5 ? "bulk-construct" : scode_names[o.code % S_NCODES]) + "[" + std::to_string(o.a) + "," + std::to_string(o.b) + "," + std::to_string(o.c) + "]";
         } else if (cfg.kind == 3) {
             s += " " + std::string(rcode_names[o.code % cfg.ncodes]) + "[" + show_rec(rec_of(o.a % 18U)) + "; " + std::to_string(o.a) + "," + std::to_string(o.b) + "," + std::to_string(o.c) + "]";
         } else {
@@ -1583,6 +1821,93 @@ void enum_rec_histories(vf::Ctx& /*c: sharding is done by vf::enum_histories*/)
     }
 }
 
+// Keys from namespace std.  On the tree at 6a7555d static_set<std::string> / static_set<std::pair<int,int>> do not compile
+// (unqualified rotate / make_pair / equal / lexicographical_compare / begin / end are ambiguous with the std:: functions
+// found by ADL; candidate repair design/patches/C09-44).  A compile error is outside every property, so this probe is
+// only built when the registry passes -DC09_STD_KEY_PROBE=1 (to be switched on once the repair is committed).
+#if defined(C09_STD_KEY_PROBE) && C09_PART == 1
+} // namespace
+    #include <string>
+    #include <utility>
+namespace {
+template <typename K>
+auto std_key_probe(char const* name, K a, K b, K c) -> std::string
+{
+    etl::static_set<K, 4> s;
+    std::set<K> m;
+    for (K const& q : {b, a, c, a}) {
+        auto r  = s.insert(q);
+        auto mr = m.insert(q);
+        if (r.second != mr.second || *r.first != *mr.first) { return std::string(name) + ": insert differs from std::set"; }
+    }
+    s.emplace(b);
+    etl::static_set<K, 4> t(s);
+    if (!(s == t) || (s != t) || (s < t) || !(s <= t)) { return std::string(name) + ": relational operators wrong on a copy"; }
+    if (s.size() != m.size() || !std::equal(m.begin(), m.end(), s.begin())) { return std::string(name) + ": content differs from std::set"; }
+    if (s.erase(a) != 1 || s.contains(a) || s.count(b) != 1 || s.find(c) == s.end()) { return std::string(name) + ": erase / lookups wrong"; }
+    swap(s, t);
+    s.erase(s.begin(), s.end());
+    return s.empty() && t.size() == 2 ? "" : std::string(name) + ": swap / erase(first,last) wrong";
+}
+void std_key_probes(vf::Ctx& c)
+{
+    if (c.shard != 0) { return; }
+    OpsCase k;
+    k.cfg = 0;
+    vf::eval("std_key_probe");
+    auto d = std_key_probe<std::string>("static_set<std::string,4>", "a", "b", "c");
+    if (d.empty()) { d = std_key_probe<std::pair<int, int>>("static_set<std::pair<int,int>,4>", {1, 2}, {2, 3}, {3, 4}); }
+    if (!d.empty()) { vf::mismatch("std_key_probe", k, d); }
+}
+#else
+void std_key_probes(vf::Ctx& /*c*/) { }
+#endif
+
+// fill-to-capacity and bulk-construction scenarios, and the bulk flat_multiset containers (all sharded)
+void enum_scenarios(vf::Ctx& c)
+{
+    std::uint64_t n = 0;
+    auto one        = [&](std::uint32_t ci, RawOp const& op) -> bool {
+        if (!c.mine(n++)) { return true; }
+        OpsCase k;
+        k.cfg = ci;
+        k.ops.push_back(op);
+        vf::Flight<OpsCase> fl("scenarios", k);
+        vf::eval("scenarios");
+        auto d = run_case(k, 1);
+        if (!d.empty()) {
+            vf::mismatch("scenarios", k, d);
+            return false;
+        }
+        return true;
+    };
+    vf::Rng rng(c.seed / 1000U + 17U); // the same extra seeds in every shard of a run
+    auto const extra = static_cast<std::uint32_t>(rng.below(1U << 20));
+    for (std::uint32_t ci = 0; ci < nconfigs; ++ci) {
+        auto const& cfg = configs[ci];
+        if (cfg.kind == 4 && cfg.cap > 64) {
+            if (cfg.cap > 1000) {
+                if (!one(ci, RawOp{S_FILL, 0, 3, extra})) { return; }
+            } else {
+                for (std::uint32_t order = 0; order < 3; ++order) {
+                    if (!one(ci, RawOp{S_FILL, order, 1, 0})) { return; }
+                    if (!one(ci, RawOp{S_FILL, order, extra, extra / 3U})) { return; }
+                }
+                if (!one(ci, RawOp{S_FILL, 2, 254, 255})) { return; }
+            }
+        }
+        if ((cfg.kind == 4 && cfg.cap <= 64) || cfg.kind == 5) {
+            for (std::uint32_t a = 0; a < 32; ++a) {         // 9 .. 40 keys
+                for (std::uint32_t u = 0; u < 3; ++u) {      // universe 6 / 20 / 1000
+                    for (std::uint32_t b : {0U, 1U, 2U, 3U, extra, extra + 1U}) {
+                        if (!one(ci, RawOp{S_BULK, a, b, u})) { return; }
+                    }
+                }
+            }
+        }
+    }
+}
+
 void enum_multisets(vf::Ctx& c)
 {
     std::uint64_t n = 0;
@@ -1621,7 +1946,9 @@ extern "C" char const* __asan_default_options() { return "quarantine_size_mb=16:
 
 void vf_run(vf::Ctx& c)
 {
+    std_key_probes(c);
     enum_multisets(c);
+    enum_scenarios(c);
     enum_rec_histories(c);
     enum_states_x_ops(c);
     enum_short_histories(c);
@@ -1629,7 +1956,7 @@ void vf_run(vf::Ctx& c)
     int const per_cfg = c.thorough() ? 25000 : 3000;
     for (std::uint32_t ci = 0; ci < nconfigs; ++ci) {
         auto const& cfg = configs[ci];
-        if (cfg.kind == 2) { continue; }
+        if (cfg.kind == 2 || cfg.kind >= 4) { continue; }
         auto gen = rc::gen::map(vf::gen_history(1, cfg.ncodes, 30), [ci](OpsCase k) {
             k.cfg = ci;
             return k;
